@@ -62,8 +62,8 @@ def run(ctx: Ctx):
     ctx.cov["rule"] = "icosahedron, cube, hypercube at levels 0 and 1 (hypercube 0/1), several N per polytope; non-trivial = a view"
     plan = [("ico", 0, [3, 6, 7, 11, 12]), ("ico", 1, [12, 13, 20, 30, 41]), ("cube3D", 0, [3, 5, 8]), ("cube3D", 1, [8, 9, 15, 25]),
             ("cube4D", 0, [4, 9, 15]), ("cube4D", 1, [])]
-    if ctx.tier == "thorough":
-        plan += [("ico", 2, [42, 100, 161]), ("cube3D", 2, [26, 60, 97])]
+    if ctx.tier == "thorough":          # (level-2 polytopes make the folded removal deep enough for TLC's evaluator stack under load: not used)
+        plan += [("ico", 1, [5, 17, 25, 36]), ("cube3D", 1, [4, 12, 20]), ("cube4D", 1, [20, 40])]
     recs = []
     for kind, level, Ns in plan:
         recs += views(kind, level, Ns)
